@@ -95,6 +95,28 @@ func GenDefaultsWorld(c *Ctx) *DefaultsWorld {
 	for i := 0; i < n; i++ {
 		d.Insts = append(d.Insts, genDefInstance(c, d.Doc, 3))
 	}
+	if c.W(3) == 0 {
+		// an object whose members are all objects, or all arrays: it can also be held in a Go map
+		// with that element type
+		props, _ := d.Doc["properties"].(map[string]any)
+		if ks := sortedKeys(props); len(ks) > 0 {
+			m := map[string]any{}
+			arrays := c.W(3) == 0
+			for _, k := range subset(c, ks, 1, len(ks)) {
+				if arrays {
+					m[k] = clone(pick(c, []any{[]any{}, []any{1.0}, []any{map[string]any{}}}))
+					continue
+				}
+				sub, _ := props[k].(map[string]any)
+				if o, ok := genDefInstance(c, sub, 2).(map[string]any); ok {
+					m[k] = o
+				} else {
+					m[k] = map[string]any{}
+				}
+			}
+			d.Insts[c.W(len(d.Insts))] = m
+		}
+	}
 	return d
 }
 
@@ -499,11 +521,20 @@ func driveC15(c *Ctx) {
 			case 0, 1:
 				lastR = st.R
 				before := clone(insts[cur])
-				holder := insts[cur]
-				var err error
-				r := Op(func() { err = rs[st.R].ApplyDefaults(&holder) })
+				typed := 0
+				if st.B%3 == 0 {
+					typed = 1 + st.A%2
+				}
+				err, r, wasTyped := applyTo(rs[st.R], &insts[cur], typed)
 				c.CheckOp("ApplyDefaults", r)
-				insts[cur] = holder
+				if wasTyped {
+					c.Probe("typed-map-holder")
+					if err != nil && !r.Panicked {
+						// a default that does not decode into the element type: an error is the answer;
+						// what the holder looks like then is not specified, the client discards it
+						insts[cur] = clone(before)
+					}
+				}
 				if r.Panicked {
 					c.Fail("C15/legitimate", "applydefaults-"+r.String(), "schedule %d step %d: ApplyDefaults(&%s) did not return normally: %s", si, ti, JSON(before), r.Value)
 					return
@@ -526,10 +557,12 @@ func driveC15(c *Ctx) {
 				lastInserted = insertedPaths(before, insts[cur], nil)
 				if st.Kind == 1 {
 					first := typedJSONDeep(insts[cur])
-					holder := insts[cur]
-					r := Op(func() { rs[st.R].ApplyDefaults(&holder) })
+					snapshot := clone(insts[cur])
+					err2, r, wasTyped2 := applyTo(rs[st.R], &insts[cur], typed)
 					c.CheckOp("ApplyDefaults", r)
-					insts[cur] = holder
+					if wasTyped2 && err2 != nil && !r.Panicked {
+						insts[cur] = snapshot
+					}
 					if typedJSONDeep(insts[cur]) != first {
 						c.Fail("C15/idempotence", "second-application", "schedule %d step %d: a second application of the same schema changed the instance from %s to %s (schema %s)", si, ti, first, typedJSONDeep(insts[cur]), JSON(doc))
 						return
@@ -604,6 +637,62 @@ func driveC15(c *Ctx) {
 		}
 		c.Sample = map[string]any{"schemas": texts, "instances": inst0, "history": fmt.Sprint(steps), "defaults_inserted_over_all_schedules": inserted}
 	}
+}
+
+// applyTo calls ApplyDefaults on *inst. typed 0: through a pointer to an any holding the
+// canonical value. typed 1 / 2: when the instance is a non-empty object whose members are all
+// objects (1) or all arrays (2), through a pointer to a map[string]map[string]any /
+// map[string][]any holding a deep copy - the element type is then a Go type of its own, not an
+// interface - and the result is brought back to canonical form through its JSON text.
+func applyTo(res *jsonschema.Resolved, inst *any, typed int) (err error, r OpResult, wasTyped bool) {
+	m, isObj := (*inst).(map[string]any)
+	if typed != 0 && isObj && len(m) > 0 {
+		text := []byte(JSON(m))
+		var holder any
+		switch typed {
+		case 1:
+			ok := true
+			for _, v := range m {
+				if _, is := v.(map[string]any); !is {
+					ok = false
+				}
+			}
+			if ok {
+				h := map[string]map[string]any{}
+				if json.Unmarshal(text, &h) == nil {
+					holder = &h
+				}
+			}
+		case 2:
+			ok := true
+			for _, v := range m {
+				if _, is := v.([]any); !is {
+					ok = false
+				}
+			}
+			if ok {
+				h := map[string][]any{}
+				if json.Unmarshal(text, &h) == nil {
+					holder = &h
+				}
+			}
+		}
+		if holder != nil {
+			r = Op(func() { err = res.ApplyDefaults(holder) })
+			if !r.Panicked && err == nil {
+				var back any
+				b, _ := json.Marshal(holder)
+				if json.Unmarshal(b, &back) == nil {
+					*inst = back
+				}
+			}
+			return err, r, true
+		}
+	}
+	holder := *inst
+	r = Op(func() { err = res.ApplyDefaults(&holder) })
+	*inst = holder
+	return err, r, false
 }
 
 // evolveSchema applies one edit to the subschema number `which` (in a fixed walk through
